@@ -64,7 +64,23 @@ def gen(rs: int, tier: str, index: int) -> dict:
     fire = []
     for _ in range(r.randint(1, 8)):
         fire.append({"pick": r.randint(0, 99), "concurrent": r.choice([1, 1, 2, 3]), "kick_delay_us": r.choice([0, 0, 1, 500])})
-    return {"world": "sched", "mode": "label", "run_seed": rs, "tasks": tasks, "fire": fire, "start": {"epoch_us": base, "local_off_min": 0}}
+    script = {"world": "sched", "mode": "label", "run_seed": rs, "tasks": tasks, "fire": fire, "start": {"epoch_us": base, "local_off_min": 0}}
+    foreign = [t for t in tasks if t.get("foreign")]
+    if foreign and r.random() < 0.35:
+        # after the source has already listed (and skipped) a foreign task, a task with the same name is registered on the source's
+        # own broker: from then on its entries belong to the source
+        ft = r.choice(foreign)
+        entries = []
+        for _ in range(r.randint(1, 3)):
+            ent = {"id": f"S{n}", "args": [], "kwargs": {}}
+            n += 1
+            if r.random() < 0.4:
+                ent["cron"] = gen_expr(r, dense=True)
+            else:
+                ent["time"] = {"us": r.choice(times), "repr": r.choice(["naive", "utc", "fixed:60"])}
+            entries.append(ent)
+        script["late_own"] = {"name": ft["name"], "schedule": entries, "at_step": r.randint(0, len(fire) - 1)}
+    return script
 
 
 # ----------------------------------------------------------------- label driver
@@ -138,6 +154,9 @@ def simulate(script: dict) -> Any:
                     continue
                 model.append(_entry_view(t["name"], e))
         declared = {e["id"]: e for t in script["tasks"] for e in t["schedule"] if "id" in e}
+        late = script.get("late_own")
+        if late:
+            declared.update({e["id"]: e for e in late["schedule"]})
         src = LabelScheduleSource(broker)
         scheduler = TaskiqScheduler(broker, [src])
 
@@ -147,6 +166,26 @@ def simulate(script: dict) -> Any:
             return got
         listed = await compare("initial")
         for step, f in enumerate(script["fire"]):
+            if late and late["at_step"] == step:
+                ents = []
+                for e in late["schedule"]:
+                    ent2: Dict[str, Any] = {"args": [e["id"]]}
+                    if e.get("cron") is not None:
+                        ent2["cron"] = e["cron"]
+                    if e.get("time") is not None:
+                        ent2["time"] = make_time(e["time"])
+                    ents.append(ent2)
+
+                def fn2() -> None:
+                    return None
+                fn2.__name__ = fn2.__qualname__ = "fn_late_" + late["name"]
+                fn2.__module__ = "simtasks"
+                broker.register_task(fn2, task_name=late["name"], schedule=ents)
+                # get_all_tasks() merges {**global, **local}: the name keeps the position it had as a shared task, i.e. before every
+                # task that only the source's broker knows; the other shared tasks are still foreign and contribute nothing
+                model[0:0] = [_entry_view(late["name"], e) for e in late["schedule"]]
+                world.fired("own_task_registered_under_foreign_name")
+                listed = await compare(f"after late registration before step {step}")
             if not listed:
                 break
             picks = []
@@ -182,6 +221,7 @@ def simulate(script: dict) -> Any:
     finally:
         world.closed = True
         run.events = world.events
+        run.fault_counts = dict(world.fault_counts)
         run.steps = loop.steps
         run.sim_us = loop.now_us
         try:
